@@ -50,8 +50,28 @@ inline Gen<Value> hard_text(bool cif11) {
     return rc::gen::map(rc::gen::container<std::vector<ustr>>(frag), [](std::vector<ustr> v) { ustr s; for (auto &f : v) s += f; return Value::chr(s, true); });
 }
 
+// single-line values that nevertheless need a text field (both quote kinds closed by a blank, or too long to quote) and whose
+// only line ends in a backslash -- which read back looks like a fold/prefix marker unless the writer protects it
+inline Gen<Value> mimic_text(bool cif11) {
+    return rc::gen::map(rc::gen::tuple(range(0, 5), range(0, 0x3fffffff), range(0, 3)), [cif11](std::tuple<int, int, int> t) {
+        int shape = std::get<0>(t); uint32_t r = (uint32_t) std::get<1>(t); int trail = std::get<2>(t);
+        auto word = [&](int k) { ustr w; int n = 1 + (int) ((r >> (k * 5)) & 7); for (int i = 0; i < n; i++) w += (char16_t) (u'a' + ((r >> (i + k)) & 15)); return w; };
+        ustr s;
+        switch (shape) {
+        case 0: s = word(0) + u"' " + word(1) + u"\" " + word(2) + u"\\"; break;                      // both quotes, one trailing backslash
+        case 1: s = word(0) + u"\" x' " + word(1) + u"\\"; break;
+        case 2: s = ustr(2046 - (size_t) (r & 1), u'q') + u"\\"; break;                               // 2047 / 2046 characters: too long for a quoted string on one line
+        case 3: s = word(0) + u"' " + word(1) + u"\" " + word(2) + u"\\" + word(3) + u"\\"; break;     // two backslashes, the last one final
+        case 4: s = cif11 ? word(0) + u"' \" " + u"\\" : word(0) + u"'''" + word(1) + u"\"\"\"" + u"\\"; break;
+        default: s = u";" + word(0) + u"' " + word(1) + u"\" " + u"\\"; break;                        // the same, starting with a semicolon
+        }
+        if (trail == 1) s += u" "; else if (trail == 2) s += u"\t ";
+        return Value::chr(s, true);
+    });
+}
+
 inline Gen<Value> doc_value(const DocOpts &o) {
-    if (o.hard_text && !o.long_values) return rc::gen::weightedOneOf<Value>({{8, value(o.vo, 0)}, {2, hard_text(o.dialect == cp::CIF11)}});
+    if (o.hard_text && !o.long_values) return rc::gen::weightedOneOf<Value>({{16, value(o.vo, 0)}, {4, hard_text(o.dialect == cp::CIF11)}, {1, mimic_text(o.dialect == cp::CIF11)}});
     if (!o.long_values) return value(o.vo, 0);
     Profile lp = o.dialect == cp::CIF2 ? P_CIF2_LINE : P_CIF11_LINE;
     auto longv = rc::gen::map(rc::gen::tuple(rc::gen::element(2040, 2044, 2045, 2046, 2047, 2048, 2049, 2052, 2100, 4095, 4097), text(lp, 12), range(0, 40)),
@@ -111,7 +131,7 @@ inline Gen<Value> doc_value(const DocOpts &o) {
                                         : shape == 4 ? head + u"\n" + longline + u" " + ustr(300, u'y') : head + u"\n" + longline.substr(0, (size_t) n - 8) + u"\t" + ustr(2100, u'y') + u" z";
                                  return Value::chr(s, true);
                              });
-    if (o.hard_text) return rc::gen::weightedOneOf<Value>({{30, value(o.vo, 0)}, {1, longv}, {1, foldv}, {1, tailv}, {1, pfxv}, {7, hard_text(o.dialect == cp::CIF11)}});
+    if (o.hard_text) return rc::gen::weightedOneOf<Value>({{30, value(o.vo, 0)}, {1, longv}, {1, foldv}, {1, tailv}, {1, pfxv}, {7, hard_text(o.dialect == cp::CIF11)}, {1, mimic_text(o.dialect == cp::CIF11)}});
     return rc::gen::weightedOneOf<Value>({{30, value(o.vo, 0)}, {1, longv}, {1, foldv}, {1, tailv}, {1, pfxv}});
 }
 
